@@ -27,6 +27,8 @@ let parse_op (op : string) : wsop =
   | ["awrite"; mt; p] -> WWrite (true, z_of_string mt, payload_arg p)
   | ["writeframe"; fin; o; p] -> WWriteFrame (false, fin = "1", z_of_string o, (if p = "none" then None else Some (payload_arg p)))
   | ["awriteframe"; fin; o; p] -> WWriteFrame (true, fin = "1", z_of_string o, (if p = "none" then None else Some (payload_arg p)))
+  | ["writeframe2"; fin; o; _; p] -> WWriteFrame (false, fin = "1", z_of_string o, Some (payload_arg p))
+  | ["awriteframe2"; fin; o; _; p] -> WWriteFrame (true, fin = "1", z_of_string o, Some (payload_arg p))
   | ["flush"] -> WFlush false
   | ["aflush"] -> WFlush true
   | ["close"; c; r] -> WClose (false, z_of_string c, zlist_of_hex r)
